@@ -264,8 +264,51 @@ def bystander_consistency(seed):
     return uniq, n_eval
 
 
+def concat_unsafe_consistency(seed):
+    """concat(..., casting='unsafe'): objects whose extents differ are padded — for every order of three extents (and two
+    differing axes) the result is consistent and each input sits, label for label, in its own slice"""
+    import itertools, warnings
+    import numpy as np
+    from common import dnp, consistent
+    fails, n_eval = [], 0
+    for exts in itertools.permutations((3, 5, 4)):
+        for lead in ((2,), (2, 3)):
+            objs = []
+            for j, n in enumerate(exts):
+                shp = lead + (n,)
+                objs.append(dnp.DNPData(np.arange(float(np.prod(shp))).reshape(shp) + 100 * j, ["x", "y", "f2"][3 - len(shp):],
+                                        [np.arange(float(m)) for m in lead] + [np.arange(n) * 0.5]))
+            n_eval += 1
+            with warnings.catch_warnings():
+                warnings.simplefilter("ignore")
+                try:
+                    r = dnp.concat(objs, "rep", casting="unsafe")
+                except Exception:  # noqa: BLE001  (a padding the function refuses is not an inconsistent result)
+                    continue
+            ok = consistent(r)
+            if ok:
+                for j, o in enumerate(objs):
+                    n = o.shape[-1]
+                    sl = np.asarray(r["rep", j].values).reshape(r.shape[:-1])
+                    if not np.array_equal(sl[..., :n], o.values) or not np.all(np.isnan(sl[..., n:])) or \
+                            not np.array_equal(np.asarray(r.coords["f2"])[:n], o.coords["f2"]):
+                        ok = False
+            if not ok:
+                key = "C01:inconsistent-object:concat-unsafe" if not consistent(r) else "C01:concat-unsafe-values-misplaced"
+                fails.append({"key": key, "clause": key, "ops": [{"extents": list(exts), "leading": list(lead),
+                                                                  "coord_lengths": [len(c) for c in r.coords.coords], "shape": list(np.shape(r.values))}]})
+    seen, uniq = set(), []
+    for f in fails:
+        if f["key"] not in seen:
+            seen.add(f["key"]); uniq.append(f)
+    return uniq, n_eval
+
+
 def run(tier, seed, escalate=False):
     res = P.run(tier, seed, escalate)
+    fc, nc = concat_unsafe_consistency(seed)
+    res["impl_failures"] += [f for f in fc if f["key"] not in {g["key"] for g in res["impl_failures"]}]
+    res["evaluations"] += nc
     fb, nb = bystander_consistency(seed)
     res["impl_failures"] += [f for f in fb if f["key"] not in {g["key"] for g in res["impl_failures"]}]
     res["evaluations"] += nb
